@@ -89,10 +89,15 @@ func ReadHeader(h *protocol.ResponseHeader, r network.Reader) error {
 func WriteHeader(h *protocol.ResponseHeader, w network.Writer) error {
 	header := h.Header()
 	h.SetHeaderLength(len(header))
-	_, err := w.WriteBinary(header)
+	// Copied into the writer's memory: h.Header() is the header's own scratch buffer,
+	// WriteBinary would keep a block of 4 KiB or more by reference until the flush, and
+	// application code (the reader of a body stream) runs before that and may call a
+	// header setter, which stages its raw value in the same buffer.
+	buf, err := w.Malloc(len(header))
 	if err != nil {
 		return err
 	}
+	copy(buf, header)
 	return nil
 }
 
